@@ -36,6 +36,9 @@ def consts_check(ctx):
     cmp("declared", [[order.get(d["proof_type"]), d["data_size"], d["context_size"]] for d in t["impls"]], c["declared"])
     cmp("meta_size", t["meta_size"], c["meta_size"])
     cmp("program_id(ts vs crate)", bytes(t["ts_address_bytes"]).hex(), c["program_id"])
+    # every form in which the crate exports the program id: the function, the constant, and the check on the constant
+    cmp("program_id_const(ts vs crate)", bytes(t["ts_address_bytes"]).hex(), c.get("program_id_const"))
+    cmp("check_id(ID)", True, c.get("check_id_const"))
     # TS column vs compiled crate as well (C17): discriminators, proof types, account sizes
     cmp("ts_instructions", [list(x) for x in t["ts_instructions"]], c["instructions"])
     cmp("ts_proof_types", [list(x) for x in t["ts_proof_types"]], c["proof_types"])
